@@ -49,6 +49,11 @@ pub enum Step {
     PollWoken(usize),
     DropConsumer(usize),
     Settle,
+    /// F8 in the vector world: poll consumer `j`; at the `at`-th preemption point reached inside the
+    /// library's receive path during that poll, the writer thread runs `ops` (direct mutators) and
+    /// then possibly drops the vector. Executed as a plain poll when the auditor is on, the vector
+    /// is gone or borrowed by a transaction / traversal.
+    PollPreempted { j: usize, at: u8, ops: Vec<Step>, drop_vector: bool },
 }
 
 impl Step {
@@ -67,7 +72,7 @@ impl Step {
     }
     pub fn is_consumer_step(&self) -> bool {
         use Step::*;
-        matches!(self, Poll(_) | PollWoken(_) | DropConsumer(_) | Settle)
+        matches!(self, Poll(_) | PollWoken(_) | DropConsumer(_) | Settle | PollPreempted { .. })
     }
     pub fn is_limit_step(&self) -> bool {
         use Step::*;
@@ -111,6 +116,7 @@ impl Step {
             PollWoken(_) => 34,
             DropConsumer(_) => 35,
             Settle => 36,
+            PollPreempted { at, ops, drop_vector, .. } => 37 + 64 * (*at as u64 + 8 * ops.len() as u64) + 4096 * *drop_vector as u64,
         }
     }
 }
